@@ -58,6 +58,7 @@ ASSUMPTIONS = [
     "theorems but not queried: the property speaks about networks built in a supported way",
 ]
 TRUSTED = ["harness/geom.py: exact rational point-in-polygon, polygon-polygon and disc-polygon tests used by the oracle"]
+EXTRA_MODULES = ["CRProps.T06"]      # translator tie: Gen.SrcC06 (regenerated from the repo every run) = hand model
 REQUIRED_BUCKETS = ["net/route/list", "net/route/add", "net/route/empty", "net/route/scenario", "net/route/xml", "net/route/pb",
                     "net/route/pb-net", "net/op/deepcopy", "net/op/pickle", "net/op/add", "net/op/add-known", "net/op/remove",
                     "net/op/remove-unknown", "net/op/addFrom", "net/op/sc_remove-ok", "net/op/sc_remove-fails",
